@@ -158,6 +158,9 @@ func (r *Registry) Finish(ri *RunInfo) int {
 	rules := map[string]int{}
 	for _, o := range r.Obs {
 		rules[o.Rule]++
+		if os.Getenv("GMSA_LIST") != "" {
+			fmt.Printf("OBLIGATION rule=%s construct=%s\n", o.Rule, o.Construct)
+		}
 		switch o.st {
 		case Discharged:
 			nDis++
